@@ -204,7 +204,7 @@ var reOutcome = regexp.MustCompile(`VERIF-REPLAY-OUTCOME: (.*)`)
 func runReplayBinary(bin, repo, pkgDir, harness, tapePath string) string {
 	cmd := exec.Command(bin, "-test.run", "^TestVerifReplay$", "-test.count=1", "-test.timeout=120s")
 	cmd.Dir = filepath.Join(repo, pkgDir)
-	cmd.Env = append(os.Environ(), "VERIF_TAPE="+tapePath, "VERIF_HARNESS="+harness)
+	cmd.Env = append(os.Environ(), "VERIF_TAPE="+tapePath, "VERIF_HARNESS="+harness, "VERIF_TIER="+replayTier)
 	var buf bytes.Buffer
 	cmd.Stdout = &buf
 	cmd.Stderr = &buf
@@ -384,3 +384,5 @@ func cmdSelftest(args []string) int {
 	fmt.Println("selftest: see `gosym check SELF`")
 	return 0
 }
+
+var replayTier = "quick"
